@@ -175,7 +175,7 @@ def r07_4(ctx):
             # drop+replace form: `*expr = v` lowers to drop((*expr)) then assign; accept either
             if assign_blocks and g.must_pass(assign_blocks, start=ab):
                 # and the child traversal dominates the replacement
-                if all(any(g.dominates(c, a) for c in child_blocks) for a in assign_blocks if g.can_reach(ab, a)):
+                if child_blocks and all(g.must_pass(child_blocks, start=0, ends={a}) for a in assign_blocks if g.can_reach(ab, a)):
                     ok = True
                     detail = "arm bb%d → assignment in bb%s, dominated by the child traversal bb%s" % (ab, sorted(assign_blocks), sorted(child_blocks))
                 else:
